@@ -1,7 +1,7 @@
 """C05 -- capture groups bind consistently across a pattern."""
 from ..tmplcheck import family_results, report
 
-FLOORS = {"C05.G1.census": 80, "C05.G3.registration-order-is-group-order": 80, "C05.G3.backref-number": 150,
+FLOORS = {"C05.Q.searched-stream-is-this-operations": 2, "C05.G1.census": 80, "C05.G3.registration-order-is-group-order": 80, "C05.G3.backref-number": 150,
           "C05.G4.operand-call": 20, "C05.G4.operand-reference": 15, "C05.G4.instr-reference": 4,
           "C05.G4.instr-call": 4, "C05.G5.reference-table": 60, "C05.G5.call-table": 100}
 
@@ -47,3 +47,6 @@ def run(ctx) -> None:
     from ..streamshapes import witnesses
     if ctx.tier == "thorough" or ('cap', 'regcap'):
         witnesses(ctx, _mkw(ctx.p), "C05.W.canonical-witness-is-found", tags=('cap', 'regcap') if ctx.tier != "thorough" or "C05" != "C07" else ())
+    # Q: the regex is searched in the stream of this operation's own listing (nothing carried over from an earlier operation)
+    from ._matchrules import stream_per_run
+    stream_per_run(ctx, "C05.Q.searched-stream-is-this-operations")
